@@ -65,6 +65,8 @@ pub struct ElixirWrap {
     pub user: ElixirUser,
     pub shape: Shape,
     pub counts: Vec<u32>,
+    /// a field whose name needs the raw-identifier syntax
+    pub r#type: u16,
 }
 
 // Serialize/Deserialize for the case enum itself (replay files); the Elixir types get plain
@@ -249,7 +251,7 @@ pub fn oracle(c: &Case) -> Verdict {
             }
             Ok(())
         }),
-        Case::ElixirWrap(u, s, n) => trip(&ElixirWrap { user: u.real(), shape: s.clone(), counts: n.clone() }, true),
+        Case::ElixirWrap(u, s, n) => trip(&ElixirWrap { user: u.real(), shape: s.clone(), counts: n.clone(), r#type: n.len() as u16 + 1 }, true),
     };
     match r {
         Err((signature, detail)) => Verdict::Fail { signature, detail },
